@@ -138,7 +138,7 @@ _PATHS = {}
 
 def calls_part(run, scratch, cfg):
     """AlignCalls.tla: histories of alignment calls on ONE score-table object that is edited in place between calls."""
-    from cogent3 import make_seq
+    from cogent3 import get_app, make_seq, make_unaligned_seqs
     from cogent3.align.align import global_pairwise, local_pairwise, make_dna_scoring_dict
 
     emit = scratch / "aligncalls.ndjson"
@@ -149,7 +149,7 @@ def calls_part(run, scratch, cfg):
         2: make_dna_scoring_dict(1, -1, -1),
         3: {(a, b): (2 if a == b else (0 if {a, b} == {"A", "C"} else -3)) for a in "ACGT" for b in "ACGT"},
     }
-    gapsets = {1: (10, 2), 2: (2, 1)}
+    gapsets = {1: (10, 2), 2: (2, 1), 3: (0, 1), 4: (6, 0)}  # incl. a free gap opening and a free gap extension
     W = {(c, g): weights(contents[c], *gapsets[g]) for c in contents for g in gapsets}
 
     def table(key):
@@ -242,6 +242,37 @@ def calls_part(run, scratch, cfg):
                     break
                 if best > score + TOL * max(1.0, abs(score)):
                     run.fail(f"calls:{mode}:after={hist_kinds}:not-optimal-for-current-model", case, what="the returned alignment is not optimal for the model as it is at the time of the call")
+                    break
+                # the same call through the apps (smith_waterman for local, align_to_ref for global), which take the model
+                # as constructor arguments: the penalties and scores GIVEN are the model, whatever their values
+                zero = "zero-penalty" if 0 in (d, e) else "positive-penalties"
+                try:
+                    coll = make_unaligned_seqs({"s1": a, "s2": b}, moltype="dna")
+                    if mode == "local":
+                        app = get_app("smith_waterman", score_matrix=S, insertion_penalty=d, extension_penalty=e)
+                        out = app(coll)
+                        arows = out.to_dict()
+                        ascore = out.info["align_params"]["sw_score"]
+                    else:
+                        app = get_app("align_to_ref", ref_seq="s1", score_matrix=S, insertion_penalty=d, extension_penalty=e)
+                        out = app(coll)
+                        arows = out.to_dict()
+                        ascore = None
+                except Exception as ex:
+                    run.fail(f"calls:{mode}:app:{zero}:raised", dict(case, exception=repr(ex)), what="alignment app raised")
+                    break
+                ncalls += 1
+                agot = (arows["s1"], arows["s2"])
+                case2 = dict(case, app_returned=agot, app_reported_score=ascore)
+                if agot not in byrows:
+                    run.fail(f"calls:{mode}:app:{zero}:rows-not-a-path", case2, what="rows returned by the alignment app are not an alignment path of the inputs")
+                    break
+                if ascore is not None and abs(scores[agot] - ascore) > TOL * max(1.0, abs(ascore)):
+                    case2["score_of_returned_path_under_given_model"] = scores[agot]
+                    run.fail(f"calls:{mode}:app:{zero}:reported-score-not-for-given-model", case2, what="the app's reported score is not the score of its path under the scores and penalties it was given")
+                    break
+                if best > scores[agot] + TOL * max(1.0, abs(best)):
+                    run.fail(f"calls:{mode}:app:{zero}:not-optimal-for-given-model", case2, what="the app's alignment is not optimal for the scores and penalties it was given")
                     break
     return len(seen), ncalls
 
